@@ -35,6 +35,8 @@ pub fn check(tier: Tier) -> Check {
     parts.push(Part::new("C09/qos2", json!({"depth": tier.pick(5, 6), "flavour": 9, "ids": [1, 2, 3]}), 0, tier.pick(40, 300)));
     // the bookkeeping across a reconnect: kept while the session lives, forgotten when it expired
     parts.push(Part::new("C09/reset", json!({}), 0, 60));
+    // on a connection that allows topic aliases: re-deliveries in the alias-only form (value flavour)
+    parts.push(Part::new("C09/qos2", json!({"depth": tier.pick(6, 7), "flavour": 1, "own_rm": 20, "vals": 1}), 0, tier.pick(40, 300)));
     // re-deliveries that arrive seconds later (real time), the messages carrying a Message Expiry Interval
     parts.push(Part::new("C09/aging", json!({}), 0, 60));
     parts.push(Part::new("C09/wide", json!({"n": tier.pick(4096, 65535)}), 0, 300));
